@@ -24,9 +24,7 @@ Print Assumptions C07_string_encoder_is_the_generated_one.
 
 Theorem C07_generated_string_roundtrip : forall b rest,
   exists w, Gen.Quote.imap_string b = Ok w /\ read_string (w ++ rest) = Some (b, rest).
-Proof.
-  intros b rest. exists (enc_string b). split; [exact (imap_string_is_enc_string b)|exact (read_string_enc b rest)].
-Qed.
+Proof. exact generated_string_roundtrip. Qed.
 Print Assumptions C07_generated_string_roundtrip.
 
 (* unquote (quote b) = b for every byte list without CR/LF/NUL ... *)
